@@ -20,41 +20,41 @@ type ViolRec struct {
 
 // RunResult is what a worker reports for one simulated run.
 type RunResult struct {
-	Begin      *int64         `json:"begin,omitempty"` // marker line: run about to start
-	HB         bool           `json:"hb,omitempty"`    // heartbeat of a long run (keeps the supervisor's watchdog quiet)
-	Run        int64          `json:"run"`
-	Seed       uint64         `json:"seed"`
-	Evals      int            `json:"evals"`
-	Viols      []ViolRec      `json:"viols,omitempty"`
-	Abort      string         `json:"abort,omitempty"`
-	Probes     map[string]int `json:"probes,omitempty"`
-	Faults     map[string]int `json:"faults,omitempty"`
-	Sigs       []string       `json:"sigs,omitempty"` // distinct non-trivial case signatures reached
-	Steps      int            `json:"steps"`
-	SimUS      int64          `json:"sim_us"`
-	Digest     uint64         `json:"digest"`
-	Sample     json.RawMessage `json:"sample,omitempty"`
-	Sites      map[string]int `json:"sites,omitempty"`
-	Infra      string         `json:"infra,omitempty"`
-	Inconclusive int          `json:"inconclusive,omitempty"`
-	Log        []string       `json:"log,omitempty"`
+	Begin        *int64          `json:"begin,omitempty"` // marker line: run about to start
+	HB           bool            `json:"hb,omitempty"`    // heartbeat of a long run (keeps the supervisor's watchdog quiet)
+	Run          int64           `json:"run"`
+	Seed         uint64          `json:"seed"`
+	Evals        int             `json:"evals"`
+	Viols        []ViolRec       `json:"viols,omitempty"`
+	Abort        string          `json:"abort,omitempty"`
+	Probes       map[string]int  `json:"probes,omitempty"`
+	Faults       map[string]int  `json:"faults,omitempty"`
+	Sigs         []string        `json:"sigs,omitempty"` // distinct non-trivial case signatures reached
+	Steps        int             `json:"steps"`
+	SimUS        int64           `json:"sim_us"`
+	Digest       uint64          `json:"digest"`
+	Sample       json.RawMessage `json:"sample,omitempty"`
+	Sites        map[string]int  `json:"sites,omitempty"`
+	Infra        string          `json:"infra,omitempty"`
+	Inconclusive int             `json:"inconclusive,omitempty"`
+	Log          []string        `json:"log,omitempty"`
 }
 
 // PropDef describes how one property is checked.
 type PropDef struct {
-	ID       string
-	Engine   string // H, K, D, S
-	Profile  string
-	Hooks    func() Hooks
-	Level    string
-	Rule     string
-	QuickS   int
-	ThorS    int
-	Race     bool
-	Trigger  []string // a run is non-trivial if one of these probes fired (empty: any)
-	Assume   []string
-	Gen      func(def *PropDef, tier string, seed uint64, run int64) *Plan
-	RunPlan  func(def *PropDef, p *Plan, scratch string) *RunResult
+	ID        string
+	Engine    string // H, K, D, S
+	Profile   string
+	Hooks     func() Hooks
+	Level     string
+	Rule      string
+	QuickS    int
+	ThorS     int
+	Race      bool
+	Trigger   []string // a run is non-trivial if one of these probes fired (empty: any)
+	Assume    []string
+	Gen       func(def *PropDef, tier string, seed uint64, run int64) *Plan
+	RunPlan   func(def *PropDef, p *Plan, scratch string) *RunResult
 	Technique string
 }
 
